@@ -244,7 +244,7 @@ CAPS = {
     'a_1c_1c': ({'A': 2, 'B': 2}, {'A': 3, 'B': 3}),
     'b_1_mc': ({'A': 2, 'B': 2}, {'A': 3, 'B': 3}),
     'c_mc_1c_other_side': ({'A': 2, 'B': 2}, {'A': 3, 'B': 3}),
-    'd_m_m': ({'A': 2, 'B': 2}, {'A': 3, 'B': 3}),
+    'd_m_m': ({'A': 2, 'B': 2}, {'A': 2, 'B': 3}),
     'e_reflexive_1c_1c': ({'A': 3}, {'A': 4}),
     'f_reflexive_1_mc': ({'A': 3}, {'A': 4}),
     'g_assoc_class': ({'A': 2, 'B': 2, 'C': 2}, {'A': 2, 'B': 2, 'C': 3}),
@@ -265,7 +265,7 @@ def run(ctx):
     total = 0
     for m in explorer.rotate(models(ctx), ctx.seed):
         schema = m.schema
-        res = explorer.bfs(ctx, m, chunk=8, label=schema.name)
+        res = explorer.bfs(ctx, m, chunk=8, label=schema.name, budget_s=None if ctx.quick else 400)
         total += res['states']
         print('  %-28s caps=%s states=%d depth=%d closed=%s t=%.0fs' % (schema.name, m.caps, res['states'], res['depth'], res['closed'], ctx.elapsed()), flush=True)
         ctx.sample(dict(schema=schema.name, caps=m.caps, states=res['states'], closed=res['closed'],
